@@ -201,6 +201,63 @@ pub fn eval_default(ctx: &mut Ctx, macro_cw: u8, eci3: bool, payload: &[u8], car
     }
 }
 
+/// several ECI sections in one symbol: every section is interpreted on its own (a designator starts a new
+/// interpretation even if it repeats the current number); the result is the concatenation, or a charset error
+/// if any single section is not a valid sequence of its character set
+pub fn eval_sections(ctx: &mut Ctx, secs: &[(u32, Vec<u8>)], lead: &[u8]) {
+    ctx.eval();
+    let case = || {
+        let mut c = Case::new("eci_sections").bytes("lead", lead).with("n", secs.len());
+        for (i, (e, p)) in secs.iter().enumerate() {
+            c = c.with(&format!("e{}", i), e).bytes(&format!("p{}", i), p);
+        }
+        c
+    };
+    let mut cw: Vec<u8> = Vec::new();
+    let push_bytes = |cw: &mut Vec<u8>, bytes: &[u8]| {
+        for b in bytes {
+            if *b < 128 {
+                cw.push(*b + 1);
+            } else {
+                cw.push(235);
+                cw.push(*b - 127);
+            }
+        }
+    };
+    push_bytes(&mut cw, lead);
+    for (e, p) in secs {
+        cw.push(241);
+        cw.extend(eci_designator(*e));
+        push_bytes(&mut cw, p);
+    }
+    let mut want: Option<String> = charset::decode(3, lead);
+    for (e, p) in secs {
+        want = match (want, charset::decode(*e, p)) {
+            (Some(mut a), Some(b)) => {
+                a.push_str(&b);
+                Some(a)
+            }
+            _ => None,
+        };
+    }
+    match guard(|| decode_str(&cw)) {
+        Err(p) => ctx.violation("decode_str_panic", &case(), p),
+        Ok(Ok(s)) => match &want {
+            Some(w) if *w == s => {
+                ctx.count("sections.ok");
+                ctx.nontrivial(hash64(case().flat().as_bytes()));
+            }
+            Some(w) => ctx.violation("wrong_character", &case(), format!("decoded {:?}, expected {:?}", s, w)),
+            None => ctx.violation("invalid_section_accepted", &case(), format!("decoded {:?} although one section alone is not a valid sequence of its character set", s)),
+        },
+        Ok(Err(DataDecodingError::CharsetError)) => match &want {
+            None => ctx.count("sections.charset_error_ok"),
+            Some(w) => ctx.violation("defined_byte_rejected", &case(), format!("CharsetError, expected {:?}", w)),
+        },
+        Ok(Err(e)) => ctx.violation("unexpected_error", &case(), format!("{:?}", e)),
+    }
+}
+
 pub fn run(ctx: &mut Ctx) {
     // all 1,000,000 ECI numbers
     let mut n = ctx.shard as u32;
@@ -278,6 +335,47 @@ pub fn run(ctx: &mut Ctx) {
         u += ctx.nshards as u32;
     }
     ctx.exhaustive.insert("eci26_every_bmp_scalar_as_payload_and_prefix".into(), true);
+    // multi-section symbols: every split point of multi-byte UTF-8 strings between two sections with the same /
+    // different ECI, sections of all five sets in all orders of two and three
+    if ctx.shard == 0 {
+        let samples: [&str; 6] = ["\u{20ac}", "a\u{e9}b", "\u{1f978}x", "\u{7ff}\u{800}", "zz", "\u{feff}q"];
+        for s in samples {
+            let b = s.as_bytes();
+            for cut in 0..=b.len() {
+                for (e1, e2) in [(26u32, 26u32), (26, 27), (27, 26), (26, 3), (3, 26)] {
+                    eval_sections(ctx, &[(e1, b[..cut].to_vec()), (e2, b[cut..].to_vec())], b"");
+                    eval_sections(ctx, &[(e1, b[..cut].to_vec()), (e2, b[cut..].to_vec())], b"L\xe4");
+                }
+                eval_sections(ctx, &[(26, b[..cut].to_vec()), (26, vec![]), (26, b[cut..].to_vec())], b"");
+            }
+        }
+        let sets = [3u32, 11, 13, 26, 27];
+        let payload = |e: u32| -> Vec<u8> { match e { 26 => "\u{e9}\u{20ac}".as_bytes().to_vec(), 27 => b"ok".to_vec(), 13 => vec![0xA1, 0x41, 0xFB], 11 => vec![0xD0, 0xFD, 0x7E], _ => vec![0xA0, 0xFF, 0x20] } };
+        for a in sets {
+            for b in sets {
+                eval_sections(ctx, &[(a, payload(a)), (b, payload(b))], b"");
+                for c in sets {
+                    eval_sections(ctx, &[(a, payload(a)), (b, payload(b)), (c, payload(c))], b"x");
+                }
+                // an undefined byte in one section only
+                eval_sections(ctx, &[(a, payload(a)), (b, vec![0x80])], b"");
+                eval_sections(ctx, &[(a, vec![0x9F]), (b, payload(b))], b"");
+            }
+        }
+    }
+    for _ in 0..ctx.budget(20_000, 2_000_000) {
+        let n = ctx.rng.range(1, 4);
+        let secs: Vec<(u32, Vec<u8>)> = (0..n)
+            .map(|_| {
+                let e = *ctx.rng.pick(&[3u32, 11, 13, 26, 26, 27]);
+                let len = ctx.rng.below(5);
+                let p: Vec<u8> = (0..len).map(|_| *ctx.rng.pick(&[0x41u8, 0x7E, 0x80, 0xA0, 0xC3, 0xA9, 0xE2, 0x82, 0xAC, 0xF0, 0x9F, 0xDB, 0xFF, 0x20])).collect();
+                (e, p)
+            })
+            .collect();
+        let lead: &[u8] = if ctx.rng.chance(1, 2) { b"" } else { b"A" };
+        eval_sections(ctx, &secs, lead);
+    }
     // UTF-8 validity: all 2-byte sequences; sampled 3-4 byte incl. overlongs and surrogates
     for a in 0..=255u8 {
         if !ctx.mine(a as usize) {
@@ -311,6 +409,10 @@ pub fn replay(ctx: &mut Ctx, case: &Case) {
     match case.kind.as_str() {
         "eci_number" => eval_number(ctx, case.get_u64("n") as u32),
         "eci_designator" => eval_designator(ctx, &case.get_bytes("d")),
+        "eci_sections" => {
+            let secs: Vec<(u32, Vec<u8>)> = (0..case.get_usize("n")).map(|i| (case.get_u64(&format!("e{}", i)) as u32, case.get_bytes(&format!("p{}", i)))).collect();
+            eval_sections(ctx, &secs, &case.get_bytes("lead"));
+        }
         "eci_default" => eval_default(ctx, case.get_usize("macro") as u8, case.get_bool("eci3"), &case.get_bytes("payload"), case.get("carrier").unwrap_or("ascii")),
         "eci_bytes" => eval_byte(ctx, case.get_u64("eci") as u32, &case.get_bytes("payload"), case.get("carrier").unwrap_or("ascii")),
         _ => ctx.harness_error("unknown case kind"),
